@@ -35,6 +35,8 @@ type c15Scenario struct {
 	Fan    sim.FanSpec `json:"fan"`
 	TickMs int         `json:"tickMs"`
 	Ops    []c15Op     `json:"ops"`
+	// DeadTacho: the RPM input reads 0 whatever the PWM (broken tacho wire): the measured curve is all zero
+	DeadTacho bool `json:"deadTacho,omitempty"`
 }
 
 func genC15(t *rapid.T) c15Scenario {
@@ -74,6 +76,7 @@ func genC15(t *rapid.T) c15Scenario {
 		f.NeverStop = rapid.Bool().Draw(t, "neverStop")
 	}
 	sc := c15Scenario{Fan: f, TickMs: rapid.SampledFrom([]int{100, 200, 1000}).Draw(t, "tickMs")}
+	sc.DeadTacho = f.Kind == "hwmon" && !f.NeverStop && rapid.IntRange(0, 7).Draw(t, "deadTacho") == 0
 	n := rapid.IntRange(2, 8).Draw(t, "nOps")
 	sc.Ops = append(sc.Ops, c15Op{Op: "start", Cycles: rapid.IntRange(1, 5).Draw(t, "k")})
 	for len(sc.Ops) < n {
@@ -153,6 +156,9 @@ func runC15(t *testing.T, sc c15Scenario) verdict {
 	}
 	stored, storedMap, edited := false, false, false // stored: RPM curve data in the database; storedMap: a PWM map in the database
 	law := sim.RpmLaw{Theta: 0, Rpm: 1200}
+	if sc.DeadTacho {
+		law.Rpm = 0
+	}
 	spec := sc.Fan
 	var starts []c15Start
 	nt := false
